@@ -1376,11 +1376,14 @@ def classify_bind(case, out, agree=True):
     dc = design_case(case)
     if dc == case:
         return None
-    ex_p, ex_d = expected(case), expected(dc)
-    if verdict(dc, out, ex_d, nobind_err="TypeError") is None:
-        priv = {p["name"] for p in case["params"] if is_private(p["name"]) and p["kind"] in ("pk", "ko")}
-        if any(k in priv for k, _ in case["kwargs"]):
-            return "private-kw-dropped"
+    priv = {p["name"] for p in case["params"] if is_private(p["name"]) and p["kind"] in ("po", "pk", "ko")}
+    if guessed_self(case):
+        priv.discard(case["params"][0]["name"])
+    if any(k in priv for k, _ in case["kwargs"]):
+        # a private parameter cannot be passed by keyword: the keyword is ignored — or, where unknown keys are refused
+        # (addition=False / no_data_loss without **kwargs), refused with an ExceedError; model and implementation agree
+        return "private-kw-dropped"
+    if verdict(dc, out, expected(dc), nobind_err="TypeError") is None:
         return "private-unparsed"
     return None
 
